@@ -250,9 +250,37 @@ def check_cli_disable(ctx, rng):
                 yield {"kind": "disabled-type-in-output", "argv": argv, "observed": {"leaked": leaked, "stdout": body[-600:]}}
 
 
+def check_constructor(ctx, rng):
+    """a registry filled through its constructor: the types are tried in the order of the arguments (every ordered pair of
+    the six shipped kinds, some longer orders), and detection takes the first of them that accepts"""
+    from json_to_models.dynamic_typing import (BooleanString, FloatString, IntString, IsoDateString, IsoDatetimeString,
+                                               IsoTimeString, StringSerializableRegistry)
+    from json_to_models.generator import MetadataGenerator
+    six = [IntString, FloatString, BooleanString, IsoDateString, IsoTimeString, IsoDatetimeString]
+    orders = list(itertools.permutations(six, 2)) + [tuple(rng.sample(six, k=rng.randint(3, 6))) for _ in range(ctx.n(20, 200))]
+    probes = ["1", "-7", "2018", "2018-12-31", "1.5", "true", "12:30", "2018-12-31T10:00:00", "x"]
+    for order in orders:
+        ctx.case(("constructor", tuple(c.__name__ for c in order)), nontrivial=True)
+        r = StringSerializableRegistry(*order)
+        seen = list(iter(r))
+        if seen != list(order) or list(r.types) != list(order):
+            yield {"kind": "constructor-order", "registry": [c.__name__ for c in order],
+                   "observed": f"constructed from {[c.__name__ for c in order]}, tries {[c.__name__ for c in seen]}"}
+            return
+        g = MetadataGenerator(r)
+        for s in probes:
+            expect = next((c for c in order if accepts_safe(c, s)), None)
+            t = g._detect_type(s)
+            if (t if isinstance(t, type) and t in six else None) is not expect:
+                yield {"kind": "constructor-first-match", "string": s, "registry": [c.__name__ for c in order],
+                       "observed": f"classified as {t!r}, first accepting parser in argument order is {expect!r}"}
+                return
+
+
 def falsify(ctx):
     rng = ctx.rng("fals")
     yield from check_cli_disable(ctx, rng)
+    yield from check_constructor(ctx, rng)
     for _ in range(ctx.n(60, 1500)):
         kinds = tuple(rng.sample(KINDS, k=rng.randint(1, 3)))
         dt = rng.random() < 0.2
@@ -325,6 +353,19 @@ def replay(ctx, hit):
             if rc != 0:
                 return {"kind": "cli-disable-fails", "observed": err[-300:]}
             return {"kind": "disabled-type-in-output", "observed": {"leaked": leaked}} if leaked else None
+    if hit["kind"] in ("constructor-order", "constructor-first-match"):
+        import json_to_models.dynamic_typing as _dt
+        from json_to_models.generator import MetadataGenerator
+        order = [getattr(_dt, n) for n in hit["registry"]]
+        r = _dt.StringSerializableRegistry(*order)
+        if list(iter(r)) != order:
+            return {"kind": "constructor-order", "observed": f"tries {[c.__name__ for c in r]}"}
+        if "string" in hit:
+            expect = next((c for c in order if accepts_safe(c, hit["string"])), None)
+            t = MetadataGenerator(r)._detect_type(hit["string"])
+            if (t if isinstance(t, type) and t in order else None) is not expect:
+                return {"kind": "constructor-first-match", "observed": f"classified as {t!r}, expected {expect!r}"}
+        return None
     registry = stages.make_registry(tuple(k for k in hit.get("registry", KINDS) if k in KINDS),
                                     datetime=any(k in DT for k in hit.get("registry", [])))
     if hit["kind"] in ("first-match", "roundtrip"):
